@@ -84,13 +84,16 @@ def statements(pid):
     return res, extra
 
 
-def audit(pid, casedir):
-    defs = definitions()
+def entry_points(casedir, defs):
     e0 = set()
     if os.path.isdir(casedir):
         for fn in os.listdir(casedir):
             if fn.endswith(".v"):
                 e0 |= set(IDENT.findall(open(os.path.join(casedir, fn)).read())) & set(defs)
+    return e0
+
+
+def closure(e0, defs):
     reached, todo = set(), list(e0)
     while todo:
         n = todo.pop()
@@ -98,6 +101,21 @@ def audit(pid, casedir):
             continue
         reached.add(n)
         todo.extend(x for x in defs.get(n, ()) if x in defs and x not in reached)
+    return reached
+
+
+def audit(pid, casedir):
+    defs = definitions()
+    e0 = entry_points(casedir, defs)
+    reached = closure(e0, defs)
+    # definitions tied by another property's correspondence (its cases_*.v as cached from its last run)
+    via = {}
+    root = os.path.dirname(casedir)
+    if os.path.isdir(root):
+        for other in sorted(os.listdir(root)):
+            if other != pid:
+                for n in closure(entry_points(os.path.join(root, other), defs), defs):
+                    via.setdefault(n, other)
     stm, extra = statements(pid)
     spoken = {}
     for th, ids in stm.items():
@@ -109,7 +127,9 @@ def audit(pid, casedir):
         allow = json.load(open(p))
     unreached = sorted(n for n in spoken if n not in reached)
     explained = {n: allow[n] for n in unreached if n in allow}
-    unexplained = {n: sorted(set(spoken[n]))[:4] for n in unreached if n not in allow}
+    explained.update({n: "evaluated by the correspondence check of %s (its last run's cases)" % via[n]
+                      for n in unreached if n not in allow and n in via})
+    unexplained = {n: sorted(set(spoken[n]))[:4] for n in unreached if n not in explained}
     return {"evaluated_entry_points": sorted(e0)[:60],
             "model_definitions_reached_by_evaluated_cases": len(reached),
             "model_definitions_in_theorem_statements": len(spoken),
